@@ -128,7 +128,7 @@ func c19Work(w *Worker) {
 				if idx%16 == 0 {
 					w.Begin(idx, c)
 				}
-				cli := (idx/int64(w.N))%211 == 0
+				cli := (idx/int64(w.N))%211 == 0 || strings.HasPrefix(origin, "whole:")
 				c19Eval(w, c, cli)
 				if idx%64 == 0 {
 					w.Recycle(idx + 1)
@@ -144,6 +144,12 @@ func c19Work(w *Worker) {
 			step = 7
 		}
 		if f.NoEdits {
+			// only the whole text (through the library and through the command-line tool)
+			if !strings.HasPrefix(f.Name, "exponential-automaton") {
+				knownEpilogue = f.Epilogue
+				emit("whole:"+f.Name, f.Text)
+				knownEpilogue = ""
+			}
 			continue
 		}
 		for n := 0; n <= len(f.Text); n += step {
@@ -273,7 +279,7 @@ func c19Eval(w *Worker, c *c19Case, cli bool) {
 		}
 	}
 	if cli {
-		c19CLI(w, c, failed, bad)
+		c19CLI(w, c, failed, after, bad)
 	}
 	w.SampleEvery(w.Out.Counters["evaluations"], 20011, func() interface{} {
 		return map[string]interface{}{"origin": c.Origin, "variant": c.Variant, "failed": failed, "diag": clip(res.Diag(), 120), "text_tail": tailStr(c.Text, 80)}
@@ -311,7 +317,7 @@ func inode(p string) uint64 {
 }
 
 // c19CLI repeats one case through the real binary.
-func c19CLI(w *Worker, c *c19Case, expectFail bool, bad func(kind, msg string)) {
+func c19CLI(w *Worker, c *c19Case, expectFail bool, libOut []byte, bad func(kind, msg string)) {
 	if _, err := nativeCLI(w); err != nil {
 		w.Note("INTERNAL: cannot build the native CLI: " + err.Error())
 		return
@@ -344,5 +350,15 @@ func c19CLI(w *Worker, c *c19Case, expectFail bool, bad func(kind, msg string)) 
 		if !bytes.Equal(after, []byte(sentinel)) || inode(outp) != ino {
 			bad("cli-file-damaged", "the CLI exited with an error but the existing output file changed")
 		}
+		return
+	}
+	// success: the file the command-line tool leaves must be complete, too (it reads the grammar file
+	// itself; the in-process generator was handed the text)
+	if c.Epilogue != "" && !strings.HasSuffix(string(after), c.Epilogue) {
+		bad("cli-file-incomplete", fmt.Sprintf("the CLI reports success but its output (%d bytes) does not end with the program section of the grammar file (%d bytes)", len(after), len(c.Epilogue)))
+		return
+	}
+	if !bytes.Equal(after, libOut) {
+		bad("cli-output-differs", fmt.Sprintf("the CLI reports success but writes another file than the generator called in-process on the same text: %s", firstDiff(libOut, after)))
 	}
 }
